@@ -1,0 +1,12 @@
+//go:build verif
+
+package mpx
+
+import "time"
+
+// ghostBackoffMonotone is a ghost client program for /verif/govc (build tag verif only): the
+// back-off never decreases from one failed attempt to the next. Proved from the contract of
+// reconnectTimeout alone.
+func ghostBackoffMonotone(attempt int) (time.Duration, time.Duration) {
+	return reconnectTimeout(attempt), reconnectTimeout(attempt + 1)
+}
